@@ -223,7 +223,7 @@ def _permitted(ctx, which):
     return [5, 1, 20, 21], [5, 1, 20, 21]
 
 
-def h_commission(ctx, N, readdress, dry_run, which, nostore, stale=None):
+def h_commission(ctx, N, readdress, dry_run, which, nostore, stale=None, abort=False):
     """nostore: False / True ('does not store the programmed address') / 'noverify' (stores it but never
     answers VERIFY SHORT ADDRESS).  stale: None / 'all' / 'sym' - units still in initialisation state
     (enabled or withdrawn, with some random address) from an earlier, unfinished session."""
@@ -256,6 +256,7 @@ def h_commission(ctx, N, readdress, dry_run, which, nostore, stale=None):
             u.random = ctx.fresh("stale_r%d" % i, 0, 0xFFFFFF)
         units.append(u)
     bus = M.Bus(units, max_commands=260)
+    abort_after = (lambda v: getattr(v, "concretize", lambda: v)())(ctx.fresh("abort_after", 0, 24)) if abort else None
     _clash_marker()         # (from the real helper, before it is replaced)
     real = getattr(S, _search_helper())
     glue = []
@@ -315,6 +316,13 @@ def h_commission(ctx, N, readdress, dry_run, which, nostore, stale=None):
                     break
                 if not isinstance(item, C.Command):
                     continue
+                if abort and len(bus.commands) == abort_after:
+                    # the caller gives up here (a driver closes the sequence when its task is cancelled):
+                    # a generator must let itself be closed
+                    stc, rc = call(gen.close)
+                    ctx.prove(stc == "ok", "closing the sequence after %d commands raised %r" % (abort_after, rc),
+                              key="commission/close-raised")
+                    return "closed after %d" % abort_after
                 if len(bus.commands) >= bus.max_commands:
                     gen.close()
                     st = "nonterminating"
@@ -415,6 +423,18 @@ def cases(tier):
             cs.append(Case("commission-N%d-stale-re" % N, h_commission,
                            {"N": N, "readdress": True, "dry_run": False, "which": "two", "nostore": False,
                             "stale": "sym"}))
+        if N <= 2:
+            # the refusing unit is offered address 63 (one below the "no address" code) first
+            cs.append(Case("commission-N%d-nostore-two" % N, h_commission,
+                           {"N": N, "readdress": True, "dry_run": False, "which": "two", "nostore": True}))
+        if N >= 2:
+            # more units than addresses in a dry run: the surplus units must be left alone too
+            cs.append(Case("commission-N%d-dry-one" % N, h_commission,
+                           {"N": N, "readdress": True, "dry_run": True, "which": "one", "nostore": False}))
+        if N == 1:
+            cs.append(Case("commission-N1-closed-early", h_commission,
+                           {"N": 1, "readdress": True, "dry_run": False, "which": "two", "nostore": False,
+                            "abort": True}))
         if N <= 2:
             # nothing (or too little) to hand out while units are still initialised from an earlier run:
             # the sequence must still end by taking every unit out of initialisation mode
